@@ -303,14 +303,22 @@ def paused_revoke_variants(b):
     return out
 
 
+def tlc_many(keys, **kw):
+    """Runs the TLC configs two at a time with half of the worker budget each (never more than WORKERS TLC workers in total)."""
+    from concurrent.futures import ThreadPoolExecutor
+    with ThreadPoolExecutor(max_workers=2) as ex:
+        return dict(zip(keys, ex.map(lambda k: vlib.tlc("MCRevocation", cfg_name(k), workers=WORKERS // 2, **kw), keys)))
+
+
 def generate(tier, seed, rnd):
     """-> list of (gen cfg key, [behaviours]) plus statistics."""
     quick = tier == "quick"
     plan = [("gen.status.quick" if quick else "gen.status", 55 if quick else 700), ("gen.net", 20 if quick else 200),
             ("gen.nodes", 20 if quick else 300), ("gen.serve", 25 if quick else 300), ("gen.ext", 40 if quick else 300)]
     groups, stats = [], {}
+    runs = tlc_many([k for k, _ in plan], timeout=900)
     for key, n in plan:
-        g = vlib.tlc("MCRevocation", cfg_name(key), workers=WORKERS, timeout=900)
+        g = runs[key]
         if not g.ok:
             raise Inconclusive("generation run %s failed: %s %s\n%s" % (key, g.violation, g.error, g.raw[-1500:]))
         wit = [b for b in g.printed if b]
@@ -396,9 +404,11 @@ def run(prop, tier, seed, replay=None):
     states = transitions = 0
     models, cover = [], {}
     fams = ["status", "net", "nodes", "serve", "ext", "alloc"] + ([] if quick else ["mixed", "serve2", "ext2"])
-    for fam in fams:
-        key = "%s.%s" % (fam, "quick" if quick or fam == "" else "thorough")
-        m = vlib.tlc("MCRevocation", cfg_name(key), workers=WORKERS, timeout=1500, coverage=not quick)
+    keys = ["%s.%s" % (fam, "quick" if quick else "thorough") for fam in fams]
+    keys.sort(key=lambda k: 0 if k.startswith("status") else 1)     # the big one first
+    runs = tlc_many(keys, timeout=1500, coverage=not quick)
+    for key in keys:
+        m = runs[key]
         if m.error:
             raise Inconclusive("TLC %s: %s" % (key, m.error))
         if m.violation:
